@@ -3,6 +3,7 @@ import Hive.Proofs.TypedStore
 import Hive.Proofs.TypedConc
 import Hive.Proofs.TypedCounter
 import Hive.Proofs.TypedGate
+import Hive.Proofs.TypedLin
 import Hive.Gen.C06_Skel
 import Hive.Proofs.TypedCode
 import Hive.Proofs.TypedUpgrade
@@ -471,6 +472,63 @@ theorem C06_serialised_judge (init : Nat) (ops : List GOp) (final : Nat) :
     (serialOk init ops final = true → ∃ l, l.Perm ops ∧ replayG init l = some final) ∧
     (replayG init ops = some final → serialOk init ops final = true) :=
   ⟨serialOk_sound init ops final, serialOk_complete init ops final⟩
+
+/-- **The linearizability judge of the free-running histories** (`conc lin …` lines: every call of a small concurrent
+history with the logical times of its invocation and return).  Sound: it accepts only if some order of *all* calls
+respects real time (`RealTime`: whoever comes later did not return before an earlier one was invoked), replays on the
+raw key — every `Compute` handed the value of that moment, every `Has` / `Get` / aborted `Compute` answering it — and ends
+in the final raw value.  Complete: every real-time-respecting order that replays is accepted; by `C06_serialised` the
+order in which the calls were logged (each while it held the lock, i.e. between its invocation and its return) is one. -/
+theorem C06_linearizable_judge (init : Nat) (ops : List LOp) (final : Nat) :
+    (linOk init ops final = true → ∃ l, l.Perm ops ∧ replayG init (l.map (·.op)) = some final ∧ RealTime l) ∧
+    ((∀ o ∈ ops, o.inv ≤ o.ret) → RealTime ops → replayG init (ops.map (·.op)) = some final → linOk init ops final = true) :=
+  ⟨linOk_sound init ops final, linOk_complete init ops final⟩
+
+/-- The judge is not vacuous: a `Get` that returned 10 strictly after a `Set(20)` over stored 10 had returned is rejected,
+the same answers with overlapping calls are accepted. -/
+example : linOk 10 [⟨⟨1, 20, 0⟩, 1, 2⟩, ⟨⟨4, 0, 10⟩, 3, 4⟩] 20 = false ∧
+    linOk 10 [⟨⟨1, 20, 0⟩, 1, 3⟩, ⟨⟨4, 0, 10⟩, 2, 4⟩] 20 = true := by decide
+
+/-- **Linearizability (real-time order) of the protocol model.**  `tsys` is the protocol model with ghost time: a clock that
+ticks at every micro-step of any goroutine, the invocation time of every call in progress, and for every log entry the pair
+(invocation time of its call, time of the step that logged it).  For any number of goroutines, any scripts and every
+schedule, in every reachable configuration:
+(1) erasing the ghost time gives a reachable configuration of the protocol model itself, so the log is a run of the
+sequential machine from the initial state ending in `base` (`C06_serialised`);
+(2) every call was logged by one of its own steps — not before it was invoked, and before now (a call returns no earlier
+than the step that logs it: the fast-path hit under the read lock or the release of the write lock) — and the log is in
+the order of these linearization points;
+(3) hence the log order respects real time: a call logged later cannot have returned (at any time `rb` after its own
+linearization point) before a call logged earlier was invoked.  Together: the concurrent object is linearizable with
+respect to the sequential machine; `linOk` (`C06_linearizable_judge`) decides this for the histories of the real code. -/
+theorem C06_linearizable (C : Codec V) (s0 : St V) (scripts : List (List (Op V × Faults)))
+    (c : Cfg (TShared V) (TThread V)) (hr : Reach (tsys C) (tinit s0, scripts.map tstart) c) :
+    Reach (sys C) (init s0, scripts.map Conc.start) (c.1.sh, c.2.map (·.t)) ∧
+    run C s0 (logOps c.1.sh.log) = (c.1.sh.base, logOuts c.1.sh.log) ∧
+    c.1.stamps.length = c.1.sh.log.length ∧
+    (∀ p ∈ c.1.stamps, p.1 ≤ p.2 ∧ p.2 < c.1.clock) ∧
+    c.1.stamps.Pairwise (fun a b => a.2 < b.2) ∧
+    c.1.stamps.Pairwise (fun a b => ∀ rb, b.2 ≤ rb → ¬ rb < a.1) := by
+  have hsim := tsys_simulates C hr
+  have hmap : (scripts.map tstart).map (·.t) = scripts.map Conc.start := by
+    simp [List.map_map, tstart, Function.comp_def]
+  simp only [hmap] at hsim
+  have hsim' : Reach (sys C) (init s0, scripts.map Conc.start) (c.1.sh, c.2.map (·.t)) := hsim
+  have hi := tinv_reach C s0 scripts hr
+  refine ⟨hsim', (C06_serialised C s0 scripts _ hsim').2.1, hi.len, hi.within, hi.sorted, ?_⟩
+  have hw := hi.within
+  refine (List.Pairwise.and_mem.mp hi.sorted).imp ?_
+  intro a b hab
+  obtain ⟨ha, _, hlt⟩ := hab
+  intro rb hrb
+  have := (hw a ha).1
+  omega
+
+/-- A concrete timed schedule: two goroutines, one `Set` each, interleaved; both calls are logged with their stamps. -/
+example :
+    let c := runSched (tsys codec64) (tinit (fresh none), [tstart [(.set 1, {})], tstart [(.set 2, {})]])
+      [(0, 0), (1, 0), (0, 0), (0, 0), (0, 0), (0, 0), (0, 0), (1, 0), (1, 0), (1, 0), (1, 0), (1, 0)]
+    c.1.stamps = [(0, 6), (1, 11)] ∧ c.1.sh.log.length = 2 := by decide
 
 /-- **No lost update (counter workload).**  Any number of goroutines run any mix of
 `Compute(increment)`, `Get` and `Has` with any fault vectors on a fresh counter.  In every
